@@ -122,10 +122,32 @@ def _tuple_first(call):
     return None, None
 
 
+def _paired_on_every_path(ctx, fi, node, partners):
+    """the CFG node of one of `partners` dominates or post-dominates (normal exit) the node of `node`: whenever
+    one of the two halves of the link executes, so does the other"""
+    g = ctx.cfg(fi)
+    a = g.node_of(ctx.enclosing_stmt(fi, node))
+    if a is None:
+        return False
+    cache = ctx.__dict__.setdefault('_domcache', {})
+    if fi.qual not in cache:
+        cache[fi.qual] = (g.dominators(), g.dominators(post=True))
+    dom, pdom = cache[fi.qual]
+    for p in partners:
+        b = g.node_of(ctx.enclosing_stmt(fi, p))
+        if b is None:
+            continue
+        if b.id == a.id or b.id in dom.get(a.id, ()) or b.id in pdom.get(a.id, ()):
+            return True
+    return False
+
+
 @rule('SA-PAIR.link_inode')
-@props('C07', 'C02')
+@props('C07', 'C02', 'C11')
 def link_inode(ctx):
-    """X.inode = ino / X.set_inode(ino)  <->  ino.linked_records.append((X, ...)) in the same function"""
+    """X.inode = ino / X.set_inode(ino)  <->  ino.linked_records.append((X, ...)) in the same function, and on the
+    same paths: one half dominates or post-dominates the other (a half that sits in one branch only leaves the
+    other paths with a one-directional link: the inode is then moved or released without that name)"""
     obs = []
     n = 0
     for fi in ctx.m.pkg_functions():
@@ -147,14 +169,24 @@ def link_inode(ctx):
                 sets.append((norm(c.node.args[0]), norm(c.node.func.value), c.node))
         for ino_e, x_e, node in sets:
             n += 1
-            ok = any(a[0] == ino_e and a[1] == x_e for a in appends)
-            obs.append(Ob('SA-PAIR.link_inode', '%s|%s.inode = %s' % (fi.qual, x_e, ino_e), ok, ctx.loc(fi, node),
-                          '' if ok else '%s points %s at inode %s but does not register it in %s.linked_records: '
-                          'the blob would be released (or moved) without this name' % (fi.qual, x_e, ino_e, ino_e)))
+            partners = [a[2].node for a in appends if a[0] == ino_e and a[1] == x_e]
+            ok = bool(partners)
+            why = '' if ok else '%s points %s at inode %s but does not register it in %s.linked_records: ' \
+                'the blob would be released (or moved) without this name' % (fi.qual, x_e, ino_e, ino_e)
+            if ok and not _paired_on_every_path(ctx, fi, node, partners):
+                ok = False
+                why = '%s points %s at inode %s on every path, but registers it in %s.linked_records only on some (line %s): on the other paths the ' \
+                    'inode does not know this name - it is moved without updating it, or released while it is still in use' % (
+                        fi.qual, x_e, ino_e, ino_e, ', '.join(str(p.lineno) for p in partners))
+            obs.append(Ob('SA-PAIR.link_inode', '%s|%s.inode = %s' % (fi.qual, x_e, ino_e), ok, ctx.loc(fi, node), why))
         for ino_e, x_e, w in appends:
-            ok = any(s[0] == ino_e and s[1] == x_e for s in sets)
-            obs.append(Ob('SA-PAIR.link_inode', '%s|%s.linked_records += %s' % (fi.qual, ino_e, x_e), ok, ctx.loc(fi, w.node),
-                          '' if ok else '%s registers %s with inode %s but never sets %s.inode' % (fi.qual, x_e, ino_e, x_e)))
+            partners = [s[2] for s in sets if s[0] == ino_e and s[1] == x_e]
+            ok = bool(partners)
+            why = '' if ok else '%s registers %s with inode %s but never sets %s.inode' % (fi.qual, x_e, ino_e, x_e)
+            if ok and not _paired_on_every_path(ctx, fi, w.node, partners):
+                ok = False
+                why = '%s registers %s with inode %s on every path but sets %s.inode only on some' % (fi.qual, x_e, ino_e, x_e)
+            obs.append(Ob('SA-PAIR.link_inode', '%s|%s.linked_records += %s' % (fi.qual, ino_e, x_e), ok, ctx.loc(fi, w.node), why))
     if n < 5:
         raise AnalysisError('anchor-vanished: inode link sites not found (%d)' % n)
     return obs
